@@ -167,6 +167,9 @@ CheckReport(e) ==
             /\ (rp.qt1 >= 0 => rp.qt1 = SumTo([k \in 1..n |-> qt(k, FALSE)], n))
             /\ ((cfg.paired /\ rp.qt2 >= 0) => rp.qt2 = SumTo([k \in 1..n |-> qt(k, TRUE)], n))
             /\ ((cfg.q1.on \/ cfg.nextseq >= 0) => rp.qt1 >= 0))
+     /\ Rep(e.id, "Report.PolyATrimmed",
+            cfg.polya => /\ rp.pa1 = SumTo([k \in 1..n |-> Ms[k].pa1], n)
+                         /\ (cfg.paired => rp.pa2 = SumTo([k \in 1..n |-> Ms[k].pa2], n)))
      /\ Rep(e.id, "Report.ReverseComplemented",
             (cfg.revcomp /\ (cfg.ads1 # <<>> \/ cfg.ads2 # <<>>)) => rp.rc = Count({k \in 1..n : Ms[k].isrc}))
      /\ Rep(e.id, "Report.TextFateEqualsJson", rp.text_ok)
